@@ -1,6 +1,7 @@
 package main
 
 import (
+	"strings"
 	"math/rand"
 
 	"github.com/andydunstall/piko/pkg/gossip"
@@ -240,7 +241,20 @@ func hostile(c *gsim.Cluster, sf *schedFile, rng *rand.Rand, n int, emit func(*g
 		o := pick(nodes)
 		var b []byte
 		var note string
-		switch rng.Intn(5) {
+		switch rng.Intn(7) {
+		case 5:
+			// identifiers that are not valid UTF-8 (a msgpack string is just bytes), from the sender and about others
+			bad := []string{"\xff\xfe\xfd", "\xc3\x28", "ok\x80", strings.Repeat("\xf0", 40)}
+			d := []gossip.VerifDeltaEntry{{ID: bad[rng.Intn(len(bad))], Addr: "1.2.3.4:1", Entries: []gossip.Entry{
+				{Key: "k\xff", Value: "v\xfe", Version: 1},
+			}}}
+			b, _ = gossip.VerifEncodeDelta(bad[rng.Intn(len(bad))], "6.6.6.6:6", d, 60000)
+			note = "forged-delta-bad-utf8"
+		case 6:
+			bad := []string{"\xff\xfe\xfd", "\xc3\x28", "ok\x80"}
+			dg := []gossip.VerifDigestEntry{{ID: bad[rng.Intn(len(bad))], Addr: "9.9.9.9:9", Version: 3}}
+			b, _ = gossip.VerifEncodeDigest(bad[rng.Intn(len(bad))], "6.6.6.6:6", rng.Intn(2) == 0, dg, 60000)
+			note = "forged-digest-bad-utf8"
 		case 0:
 			// a well-formed delta about the receiver itself and about others, with high versions
 			d := []gossip.VerifDeltaEntry{{ID: o, Addr: "1.2.3.4:1", Entries: []gossip.Entry{
